@@ -151,6 +151,45 @@ def run(tier, seed):
             if len(ck.samples) < 4:
                 ck.sample({'tree': sc.label, 'history': history[:4]})
             scs.append(sc)
+    # positional selectors over sibling lists (same-named siblings in different namespaces included): the answer for one element
+    # must not depend on which of its siblings were asked before
+    from props import C02
+    OFT = [':first-of-type', ':last-of-type', ':only-of-type', ':nth-of-type(2)', ':nth-last-of-type(2)', ':nth-of-type(odd)',
+           ':not(:only-of-type)', 'li:nth-of-type(2n)', ':nth-child(2)', ':nth-last-child(odd)', ':nth-child(2 of .x)', ':first-child',
+           ':only-child', ':nth-of-type(-n+2)', ':nth-of-type(n+2):nth-last-of-type(n+2)']
+    for _ in range(n // 3):
+        top, label = C02.sibling_doc(rnd)
+        sc = e1.Scenario(top, label)
+        elements = sc.elements
+        pristine = clone(top)
+        p_elems = [e for e in pristine.find_all(True)] if pristine is not None else None
+        before = snapshot(top)
+        for s in rnd.sample(OFT, 5):
+            with warnings.catch_warnings():
+                warnings.simplefilter('ignore')
+                c = sv.compile(s)
+                got = [id(e) for e in c.select(top)]
+                per = [id(e) for e in elements if c.match(e)]
+                rev = [id(e) for e in reversed(elements) if c.match(e)][::-1]
+                mod = [id(e) for e in elements if sv.match(s, e)]
+                fresh = None
+                if p_elems is not None and len(p_elems) == len(elements):
+                    fresh = [id(elements[i]) for i in reversed(range(len(p_elems))) if c.match(p_elems[i])][::-1]
+            ck.count(('history-nth', label.split('/')[1], 'type' in s, len(got) > 0))
+            below = {id(e) for e in top.find_all(True)}                # select() answers for the descendants of its argument only
+            got_all = per
+            got = [i for i in got]
+            per_b = [i for i in per if i in below]
+            if not (per == rev == mod) or got != per_b or (fresh is not None and fresh != per):
+                idx = {id(e): i for i, e in enumerate(elements)}
+                ck.violation(f'select({s!r}) and asking each sibling alone (in document order, in reverse, with a fresh matcher, on a pristine copy) disagree',
+                             {'pattern': s, 'markup': matchcheck.markup_of(sc), 'tree': label, 'select_indices': [idx[i] for i in got],
+                              'match_each_indices': [idx[i] for i in per], 'match_each_reversed': [idx[i] for i in rev],
+                              'module_match_indices': [idx[i] for i in mod], 'pristine_copy_indices': None if fresh is None else [idx[i] for i in fresh]})
+            sc.add(s, [('select', (), 0)] + [('match', sc.path_of[id(e)]) for e in elements[:12]])
+        if snapshot(top) != before:
+            ck.violation('the document changed while it was being queried', {'markup_before': before[0][:1500], 'markup_after': str(top)[:1500]})
+        scs.append(sc)
     matchcheck.run_corr(ck, scs)
     return ck.finish(
         level='proof',
